@@ -1257,9 +1257,9 @@ class XsdElement(XsdComponent, ParticleMixin,
         elif isinstance(other, XsdAnyElement):
             if other.is_matching(self.name, self.default_namespace):
                 return True
-            for e in self.maps.substitution_groups.get(self.name, ()):
+            for e in self.iter_substitutes():
                 if other.is_matching(e.name, self.default_namespace):
-                    return True
+                    return True  # also a member of the group of a member
         return False
 
     def is_consistent(self, other: SchemaElementType, strict: bool = True) -> bool:
@@ -1421,9 +1421,9 @@ class Xsd11Element(XsdElement):
         elif isinstance(other, XsdAnyElement):
             if other.is_matching(self.name, self.default_namespace):
                 return True
-            for e in self.maps.substitution_groups.get(self.name, ()):
+            for e in self.iter_substitutes():
                 if other.is_matching(e.name, self.default_namespace):
-                    return True
+                    return True  # also a member of the group of a member
         return False
 
     def is_consistent(self, other: SchemaElementType, strict: bool = True) -> bool:
